@@ -693,8 +693,11 @@ class PendingAssign(PendingNode[Assign | AnnAssign]):
         else:
             assign_targets = self.node.targets
 
-        if len(assign_targets) > 1:
-            # a = b = value: the value runs once
+        if len(assign_targets) > 1 or isinstance(
+            assign_targets[0], (Attribute, Subscript)
+        ):
+            # a = b = value: the value runs once;
+            # obj.attr = value / obj[i] = value: the value runs before obj and i
             tmp_value_name = Name(id=ol_name(OL_ASSIGN_TMP))
             return_list.append(NamedExpr(target=tmp_value_name, value=assign_value))
             assign_value = tmp_value_name
